@@ -34,8 +34,25 @@ def _binning_object(rng: random.Random, pairs, consecutive: bool):
 
     if consecutive and rng.random() < 0.4:
         e = [p[0] for p in pairs] + [pairs[-1][1]]
-        return binnings.NumpyBinning(np.array(e)), "NumpyBinning"
-    return binnings.StaticBinning(np.array(pairs)), "StaticBinning"
+        return binnings.NumpyBinning(np.array(e), includes_right_edge=rng.random() < 0.7), "NumpyBinning"
+    return binnings.StaticBinning(np.array(pairs), includes_right_edge=rng.random() < 0.7), "StaticBinning"
+
+
+def _prepared_object(rng: random.Random):
+    """Prepared (not data-derived) fixed-width / integer / exponential binnings: in 1D the last bin is closed for all."""
+    from physt import binnings
+
+    how = rng.randrange(4)
+    nb = rng.randint(1, 10)
+    w = rng.choice(gen.WIDTH_POOL)
+    lo = rng.choice([0.0, 1.0, -2.5, 100.0, 0.7])
+    if how == 0:
+        return binnings.FixedWidthBinning(bin_width=w, bin_count=nb, min=lo)
+    if how == 1:
+        return binnings.fixed_width_binning(None, bin_width=w, range=(lo, lo + nb * w))
+    if how == 2:
+        return binnings.integer_binning(None, range=(int(lo), int(lo) + nb))
+    return binnings.exponential_binning(None, nb, range=(0.5, 0.5 * 10 ** rng.choice([1, 2, 0.5])))
 
 
 def one_case(ctx, index: int, rng: random.Random):
@@ -43,14 +60,18 @@ def one_case(ctx, index: int, rng: random.Random):
 
     rec = ctx.rec
     big = not ctx.quick
-    kind = rng.choice(["edges", "edges", "pairs", "gapped", "gapped", "object", "int", "method", "none", "single"])
+    kind = rng.choice(["edges", "edges", "pairs", "gapped", "gapped", "object", "prepared", "int", "method", "none", "single"])
     nmax = 300 if not big else rng.choice([300, 300, 2000])
     n = rng.choice([0, 1, 2, 3, 10, 40, nmax]) if rng.random() < 0.5 else rng.randint(0, nmax)
     kwargs = {}
     bins_arg = None
     pairs = None
     mechanism = None
-    if kind in ("edges", "pairs", "gapped", "object", "single"):
+    if kind == "prepared":
+        bins_arg = _prepared_object(rng)
+        pairs = np.asarray(bins_arg.bins, dtype=float).tolist()
+        data = gen.data_for_bins(rng, pairs, n, nan_ok=rng.random() < 0.3)
+    elif kind in ("edges", "pairs", "gapped", "object", "single"):
         nb = 1 if kind == "single" else (rng.randint(1, 12) if not big else rng.randint(1, 60))
         if kind == "gapped":
             pairs = gen.gapped_pairs(rng, max(2, min(nb, 12)))
@@ -100,6 +121,11 @@ def one_case(ctx, index: int, rng: random.Random):
                 kwargs["bin_count"] = rng.randint(1, 20)
         else:
             bins_arg = None
+    infs = False
+    if pairs is not None and len(data) > 2 and rng.random() < 0.12:
+        for _ in range(rng.randint(1, 3)):
+            data[rng.randrange(len(data))] = rng.choice([math.inf, -math.inf])
+        infs = True
     wts, wkind = gen.weights(rng, len(data))
     general = False
     if wts is not None and rng.random() < 0.1:
@@ -148,6 +174,8 @@ def one_case(ctx, index: int, rng: random.Random):
     except Exception as e:
         rec.mon("C01.h1.post")
         rec.case(desc, False, cls=f"raised:{kind}")
+        if infs:
+            return  # infinite values may be refused (outside the quantifier); silently losing their weight may not
         if not (isinstance(e, ValueError) and "NaN" in str(e)):
             mechanism = None  # the known finding is this refusal only
         rec.fail(monitor="C01.h1.post", op="h1", symptom=f"valid input refused: {type(e).__name__}",
@@ -156,9 +184,9 @@ def one_case(ctx, index: int, rng: random.Random):
     # the oracle (also reached passively through the wrapper for list/array containers; the direct
     # call covers iterators and is the deciding evaluation)
     with attach.quiet():
-        ok = construct.check_h1(rec, h, flat, wflat, bins_arg=bins_arg if kind != "object" else None,
+        ok = construct.check_h1(rec, h, flat, wflat, bins_arg=bins_arg if kind not in ("object", "prepared") else None,
                                 dtype=dtype, keep_missed=keep_missed, op="h1", detail=desc)
-        if kind == "object":
+        if kind in ("object", "prepared"):
             if not np.array_equal(np.asarray(h.bins), np.asarray(pairs)):
                 rec.fail(monitor="C01.h1.post", op="h1", symptom="bins of the supplied binning object not reported unchanged",
                          diff=["bins"], detail=desc)
@@ -169,7 +197,7 @@ def one_case(ctx, index: int, rng: random.Random):
     m = model.bin_1d(bins, flat, None)
     dests = {d if isinstance(d, str) else "bin%d" % d[1] for d in m.dest}
     nontrivial = len(bins) >= 2 and adjacent and len(dests) >= 2
-    rec.case(desc, nontrivial, cls=f"{kind}/{wkind}{'/general' if general else ''}/{'gapped' if gapped else 'cons'}",
+    rec.case(desc, nontrivial, cls=f"{kind}/{wkind}{'/general' if general else ''}/{'gapped' if gapped else 'cons'}{'/inf' if infs else ''}",
              sample={"bins": bins.tolist()[:6], "data": flat.tolist()[:12], "weights": None if wts is None else list(wts)[:12],
                      "frequencies": np.asarray(h.frequencies).tolist()[:6], "underflow": float(h.underflow), "overflow": float(h.overflow),
                      "kwargs": desc["kwargs"]})
